@@ -112,6 +112,9 @@ func resources(p *program) (core.Dict, func(core.IndirectRef) (core.Object, erro
 			d["Resources"] = core.IndirectRef{Number: 9999}
 		}
 		data := p.formData(f)
+		if f.undecodable {
+			d["Filter"] = core.Name("FlateDecode")
+		}
 		d["Length"] = core.Int(len(data))
 		objs[numOf[name]] = &core.Stream{Dict: d, Data: data}
 	}
@@ -200,6 +203,55 @@ func runCase(c *fw.Ctx, id string, idx int) {
 		}
 		compareFragments(c, id, cls, frags, ref, detail)
 	})
+
+	// (a2) the whole program under a rotation of the device space (one more cm in front of it,
+	// i.e. applied last): whatever "the combined scaling" is taken to be - the length of the
+	// image of a text-space unit vector, the larger of the two, the root of the determinant, a
+	// singular value - a rotation of the page does not change it, so every reported font size
+	// stays what it was. Decides what the bounds above leave open under shears and under
+	// non-uniform scales combined with rotations.
+	if idx%3 == 0 && !p.features["form-damaged-after-q"] {
+		c.Guard(cls+"+rotated", id, detail, func() {
+			run := func(prog []byte) (map[string][]float64, error) {
+				ex := text.NewExtractor()
+				if len(p.forms) > 0 {
+					res, resolver := resources(p)
+					ex.SetResourceContext(res, resolver)
+				}
+				frags, err := ex.ExtractFromBytes(prog)
+				out := map[string][]float64{}
+				for _, f := range frags {
+					if f.Text != "" {
+						out[f.Text] = append(out[f.Text], f.FontSize)
+					}
+				}
+				return out, err
+			}
+			base, err := run(data)
+			if err != nil {
+				return // reported by (a)
+			}
+			deg := []float64{30, 45, 90, 137, 180, 270, 301}[(idx/3)%7]
+			sn, cs := math.Sincos(deg * math.Pi / 180)
+			rot := fmt.Sprintf("%.12f %.12f %.12f %.12f 0 0 cm\n", cs, sn, -sn, cs)
+			turned, err := run(append([]byte(rot), data...))
+			if err != nil {
+				c.Fail("", cls+"/error", id, fmt.Sprintf("ExtractFromBytes: error %q on a well-formed program behind %q", err, rot), detail)
+				return
+			}
+			for _, sh := range ref.Shows {
+				a, b := base[sh.Text], turned[sh.Text]
+				if len(a) != 1 || len(b) != 1 {
+					continue
+				}
+				c.Count("font_sizes_compared_under_page_rotation", 1)
+				if math.Abs(a[0]-b[0]) > 1e-6*math.Abs(a[0])+1e-9 {
+					c.Fail("", cls+"/font-size-rotation", id, fmt.Sprintf("show %s: FontSize %.9g, but %.9g when the device space is turned by %v degrees (one more cm in front of the program)", sh.Text, a[0], b[0], deg), detail)
+					return
+				}
+			}
+		})
+	}
 
 	// (a') the same program as the content stream of a one-page PDF file, through the public API
 	if idx%9 == 0 {
@@ -480,6 +532,9 @@ func pdfFile(p *program, polluter bool) []byte {
 		}
 		if f.danglingRes && len(f.children) == 0 {
 			d = strings.Replace(d, "/Resources<<"+res+">>", "", 1) + "/Resources 9999 0 R"
+		}
+		if f.undecodable {
+			d += "/Filter/FlateDecode"
 		}
 		add(stream(d, p.formData(f)))
 	}
